@@ -463,7 +463,7 @@ PLANS = {
     "C20": [MIRI, M(["readers"], 6, 60), M(["slow"], 2, 20, seed_off=5), S(["metrics", "traffic", "kill", "faults"], 15000, 120000)],
     "C17": [M(["blocking"], 8, 90), M(["general"], 6, 60, seed_off=77)],
     "C19": [{"engine": "gen", "actors": (60, 400), "rounds": (1, 3)}, S(["traffic", "faults"], 9000, 60000)],
-    "C18": [{"engine": "featdiff", "profiles": ["traffic", "backpressure", "lifecycle", "kill", "refs", "idle", "timeouts", "faults", "metrics"], "count": (1500, 20000)}],
+    "C18": [{"engine": "featdiff", "profiles": ["traffic", "backpressure", "lifecycle", "kill", "refs", "idle", "timeouts", "faults", "metrics", "overlap"], "count": (1500, 20000)}],
 }
 
 # minimum number of non-vacuous evaluations of the key clauses below which a run is inconclusive
